@@ -3,6 +3,7 @@
 //!   opwv replay <generator> <in.ndjson> <out.ndjson>   spec -> impl (B1)
 //!   opwv record <what> <out.ndjson>                    impl -> spec (B2 / B3)
 mod chain;
+mod frame3;
 mod jac;
 mod lattice;
 mod limits;
@@ -32,6 +33,8 @@ fn main() {
         ("replay", "pgram") => pgram::replay(&args[3], &args[4]),
         ("replay", "jac") => jac::replay(&args[3], &args[4]),
         ("record", "jac") => jac::record(&args[3]),
+        ("replay", "frame3") => frame3::replay(&args[3], &args[4]),
+        ("record", "ftrans") => frame3::record(&args[3]),
         ("record", "ik") => solver::record(&args[3], &args[4]),
         ("record", "follow") => solver::record_follow(&args[3]),
         _ => {
